@@ -22,11 +22,15 @@ fn mk(name: &str, props: Vec<&'static str>, seeds: Vec<(String, Sim)>, menu: Men
     StakingScenario { name: name.to_string(), props, seeds, menu, probe: None, goal: None, extra_step: None, dev_cost: std_dev, panics_are: None }
 }
 
-fn named(k: &K, v: Vec<(&str, Sim)>) -> Vec<(String, Sim)> {
-    v.into_iter().map(|(n, s)| (format!("{}/{}", k.name, n), s)).collect()
+fn named(k: &K, v: Vec<(&str, Option<Sim>)>) -> Vec<(String, Sim)> {
+    v.into_iter().filter_map(|(n, s)| s.map(|s| (format!("{}/{}", k.name, n), s))).collect()
 }
 
-fn small_funds(mut s: Sim, keep: u128) -> Sim {
+fn small_funds(f: impl FnOnce() -> Sim, keep: u128) -> Option<Sim> {
+    try_seed(f).map(|s| small_funds_of(s, keep))
+}
+
+fn small_funds_of(mut s: Sim, keep: u128) -> Sim {
     // trim user balances so that the number of stakes along a path is naturally bounded
     let sdn = sd();
     for i in 1..=3u8 {
@@ -58,15 +62,15 @@ fn acct_plans(prop: &'static str, thorough: bool) -> Vec<Plan> {
         let seeds = named(
             &k,
             vec![
-                ("fresh", small_funds(seed_fresh(&k), 250)),
-                ("resumed", small_funds(seed_resumed(&k), 250)),
-                ("two_stakes", small_funds(seed_two_stakes(&k), 250)),
-                ("rate_up", small_funds(seed_rate_up(&k), 250)),
-                ("rate_down", small_funds(seed_rate_down(&k), 250)),
-                ("queued", small_funds(seed_queued(&k), 250)),
-                ("submitted", small_funds(seed_submitted(&k), 250)),
-                ("full_exit", small_funds(seed_full_exit(&k), 250)),
-                ("sweep", small_funds(seed_sweep(&k), 250)),
+                ("fresh", small_funds(|| seed_fresh(&k), 250)),
+                ("resumed", small_funds(|| seed_resumed(&k), 250)),
+                ("two_stakes", small_funds(|| seed_two_stakes(&k), 250)),
+                ("rate_up", small_funds(|| seed_rate_up(&k), 250)),
+                ("rate_down", small_funds(|| seed_rate_down(&k), 250)),
+                ("queued", small_funds(|| seed_queued(&k), 250)),
+                ("submitted", small_funds(|| seed_submitted(&k), 250)),
+                ("full_exit", small_funds(|| seed_full_exit(&k), 250)),
+                ("sweep", small_funds(|| seed_sweep(&k), 250)),
             ],
         );
         let mut o = MenuOpt::base();
@@ -78,6 +82,7 @@ fn acct_plans(prop: &'static str, thorough: bool) -> Vec<Plan> {
         o.ibc_down = true;
         o.recover_paginated = thorough;
         o.recover_receivers = vec![Some(n20(&k, "n1"))];
+        o.stake_to_staker = true;
         let mut sc = mk(&format!("acct-{}-{}", prop, k.name), vec![prop], seeds, Box::new(move |s| std_menu(s, &o)));
         sc.goal = Some(Box::new(|pre, a, ap, post| {
             let mut g = vec![];
@@ -112,17 +117,19 @@ fn solv_plans(thorough: bool) -> Vec<Plan> {
         let seeds = named(
             &k,
             vec![
-                ("resumed", small_funds(seed_resumed(&k), 150)),
-                ("rate_up", small_funds(seed_rate_up(&k), 150)),
-                ("queued", small_funds(seed_queued(&k), 150)),
-                ("submitted", small_funds(seed_submitted(&k), 150)),
-                ("received", small_funds(seed_received(&k), 150)),
+                ("resumed", small_funds(|| seed_resumed(&k), 150)),
+                ("rate_up", small_funds(|| seed_rate_up(&k), 150)),
+                ("queued", small_funds(|| seed_queued(&k), 150)),
+                ("submitted", small_funds(|| seed_submitted(&k), 150)),
+                ("received", small_funds(|| seed_received(&k), 150)),
             ],
         );
         let mut o = MenuOpt::base();
         o.deliver = vec![Rel::Exact, Rel::Minus1, Rel::Plus5, Rel::One];
         o.deliver_dev = false;
         o.fee_withdraw = vec![Rel::Exact, Rel::Half, Rel::Plus5];
+        o.stake_to_staker = true;
+        o.max_inflight = 2;
         o.stake_amts = vec![100];
         o.rewards = vec![50];
         o.unstake = vec![Frac::All, Frac::Fixed(7)];
@@ -179,19 +186,24 @@ fn solv_plans(thorough: bool) -> Vec<Plan> {
 fn lst_plans(thorough: bool) -> Vec<Plan> {
     let mut out = Vec::new();
     for k in [K::k0(), K::k2()] {
-        let q = |s: Sim| -> Sim {
+        let q = |f: fn(&K) -> Sim, k: &K| -> Option<Sim> {
             // leave LST queued in the pending batch so that an over-sized IBC delivery could succeed
-            let mut sc = Script { s, strict: true };
-            sc = sc.with(|s| unstake(s, &u(2), 40));
-            small_funds(sc.done(), 250)
+            small_funds(
+                || {
+                    let mut sc = Script { s: f(k), strict: true };
+                    sc = sc.with(|s| unstake(s, &u(2), 40));
+                    sc.done()
+                },
+                250,
+            )
         };
         let seeds = named(
             &k,
             vec![
-                ("resumed", small_funds(seed_resumed(&k), 250)),
-                ("rate1_queued", q(seed_two_stakes(&k))),
-                ("rate_up_queued", q(seed_rate_up(&k))),
-                ("rate_down_queued", q(seed_rate_down(&k))),
+                ("resumed", small_funds(|| seed_resumed(&k), 250)),
+                ("rate1_queued", q(seed_two_stakes, &k)),
+                ("rate_up_queued", q(seed_rate_up, &k)),
+                ("rate_down_queued", q(seed_rate_down, &k)),
             ],
         );
         let mut o = MenuOpt::base();
@@ -287,9 +299,9 @@ fn wd_plans(thorough: bool) -> Vec<Plan> {
         s.apply(&advance(d));
         s
     };
-    let mut seeds = vec![("three_rate1", small_funds(three(&k, false), 0)), ("three_rate_up", small_funds(three(&k, true), 0))];
+    let mut seeds = vec![("three_rate1", small_funds(|| three(&k, false), 0)), ("three_rate_up", small_funds(|| three(&k, true), 0))];
     if thorough {
-        seeds.push(("two_batches", small_funds(two_batches(&k), 0)));
+        seeds.push(("two_batches", small_funds(|| two_batches(&k), 0)));
     }
     let seeds = named(&k, seeds);
     let mut o = MenuOpt::base();
@@ -360,9 +372,9 @@ fn life_plans(thorough: bool) -> Vec<Plan> {
     let seeds = named(
         &k,
         vec![
-            ("fresh", small_funds(seed_fresh(&k), 0)),
-            ("two_stakes", small_funds(seed_two_stakes(&k), 0)),
-            ("rate_up", small_funds(seed_rate_up(&k), 0)),
+            ("fresh", small_funds(|| seed_fresh(&k), 0)),
+            ("two_stakes", small_funds(|| seed_two_stakes(&k), 0)),
+            ("rate_up", small_funds(|| seed_rate_up(&k), 0)),
         ],
     );
     let mut o = MenuOpt::base();
@@ -472,12 +484,12 @@ fn ibc_plans(thorough: bool) -> Vec<Plan> {
             continue;
         }
         let mut seeds = vec![
-            ("resumed", small_funds(seed_resumed(&k), 120)),
-            ("rate_up", small_funds(seed_rate_up(&k), 120)),
-            ("refundable11", small_funds(refundable_seed(&k, 11), 40)),
+            ("resumed", small_funds(|| seed_resumed(&k), 120)),
+            ("rate_up", small_funds(|| seed_rate_up(&k), 120)),
+            ("refundable11", small_funds(|| refundable_seed(&k, 11), 40)),
         ];
         if thorough {
-            seeds.push(("refundable2", small_funds(refundable_seed(&k, 2), 60)));
+            seeds.push(("refundable2", small_funds(|| refundable_seed(&k, 2), 60)));
         }
         let seeds = named(&k, seeds);
         let kk = k.clone();
@@ -492,6 +504,7 @@ fn ibc_plans(thorough: bool) -> Vec<Plan> {
                 if s.w.bal(&u(1), &sd()) >= 20 {
                     a.push(hold(stake(&u(1), 20)));
                     a.push(hold(stake_to(&u(1), 20, Some(n1.clone()), Some(true), None)));
+                    a.push(hold(stake_to(&u(1), 20, Some(staker.clone()), Some(true), None)));
                     a.push(stake(&u(1), 20));
                 }
                 if !s.w.state().total_liquid_stake_token.is_zero() {
@@ -615,7 +628,7 @@ fn ibc_plans(thorough: bool) -> Vec<Plan> {
 fn fee_plans(thorough: bool) -> Vec<Plan> {
     let mut out = Vec::new();
     for k in [K::k0(), K::k4()] {
-        let seeds = named(&k, vec![("two_stakes", small_funds(seed_two_stakes(&k), 0)), ("resumed", small_funds(seed_resumed(&k), 100)), ("sweep", small_funds(seed_sweep(&k), 100))]);
+        let seeds = named(&k, vec![("two_stakes", small_funds(|| seed_two_stakes(&k), 0)), ("resumed", small_funds(|| seed_resumed(&k), 100)), ("sweep", small_funds(|| seed_sweep(&k), 100))]);
         let menu: Menu = Box::new(move |s| {
             let mut a: Vec<Act> = Vec::new();
             if s.w.ibc.next_seq <= 8 {
@@ -687,7 +700,7 @@ pub fn panic_plans(thorough: bool) -> Vec<Plan> {
     let mut out = Vec::new();
     for k in [K::k0(), K::k1(), K::k2(), K::k4(), K::k3(100_000), K::k3(150_000)] {
         // only the freshly instantiated (halted) contract is a seed: everything else is reached by the search
-        let seeds = named(&k, vec![("fresh", small_funds(seed_fresh(&k), 250))]);
+        let seeds = named(&k, vec![("fresh", small_funds(|| seed_fresh(&k), 250))]);
         let mut o = MenuOpt::base();
         o.stake_native = true;
         o.stake_other = true;
